@@ -141,8 +141,10 @@ def check_history(h, sets, readback, snap, kinds, initial, disturbed=False):
             if not is_ok(r):
                 out.append((f"C12|valid-setting-refused|{name_class(n, kinds)}|{vclass}", f"set_preference({n!r}, {v!r}) was refused: {short(r, 120)}"))
             else:
-                m.apply(n, rb)
-                exempt |= DEPENDENT.get(n, set())
+                if m.vals.get(n) is None or m.vals.get(n) != rb:
+                    exempt |= DEPENDENT.get(n, set())      # a write that CHANGES the value may recompute the derived preferences ...
+                m.apply(n, rb)                              # ... re-sending the current value may change nothing at all
+                exempt.discard(n)                           # an explicit accepted write makes a derived preference known again
         elif verdict == "reject":
             if is_ok(r):
                 out.append((f"C12|bad-setting-accepted|{name_class(n, kinds)}|{vclass}", f"set_preference({n!r}, {v!r}) ({'unknown name' if kind == 'unknown' else kind + ' preference'}) was accepted"))
@@ -159,8 +161,8 @@ def check_history(h, sets, readback, snap, kinds, initial, disturbed=False):
             out.append((f"C12|readback-differs|{name_class(n_last, kinds)}|{value_class(h[-1][1])}", f"after {h}: get_preference({n_last!r}) is {short(readback, 80)}, expected {m.vals[n_last]!r}"))
     written = {x[0] for x in h}
     for n, want in m.vals.items():
-        if n in exempt or want is None or n not in snap or (n in written and not disturbed):
-            continue            # (the written names themselves are judged by the read-back check above)
+        if n in exempt or want is None or n not in snap or n == n_last:
+            continue            # (the last written name is judged by the read-back check above)
         if snap[n] != want:
             tag = "after-queries" if disturbed else "after-set"
             out.append((f"C12|other-preference-changed|{tag}|{n}", f"after {h}{' and a series of set_mathml/getter calls' if disturbed else ''}: {n} reads {snap[n]!r}, expected {want!r}"))
@@ -321,7 +323,19 @@ def main(tier):
     # D: persistence across expressions and purity of queries: accepted settings followed by a series of calls
     D = [[(n, v)] for n in names for v in (MEMBERS.get(n, []) or (["true", "false"] if kinds[n] == "boolean" else ["20"] if kinds[n] == "number" else [])) ]
     D += [[("BrailleNavHighlight", s), ("BrailleCode", c)] for s in MEMBERS["BrailleNavHighlight"] for c in ("Nemeth", "UEB", "CMU")]
-    for tag, hs, step in (("A", A, 300), ("B", B, 300), ("C", C, 300), ("D", D, 20)):
+    # E: re-sending the CURRENT value of a preference is a no-op: an explicitly set preference p survives (q := its current value),
+    #    from the initial state and after q was itself written
+    explicit = [(n, v) for n in names for v in ((MEMBERS.get(n, []) or (["true", "false"] if kinds[n] == "boolean" else ["20"] if kinds[n] == "number" else []))[:2])]
+    explicit += [("DecimalSeparators", ","), ("BlockSeparators", "."), ("DecimalSeparators", ";"), ("BlockSeparators", " ")]
+    resend = [q for q in ("Language", "LanguageAuto", "DecimalSeparator", "SpeechStyle", "BrailleCode", "Verbosity", "TTS", "NavMode", "CheckRuleFiles", "Impairment", "Blind")
+              if q in initial and initial[q] is not None]
+    E = [[(n, v), (q, initial[q])] for n, v in explicit for q in resend if q != n]
+    for q in resend:
+        for vq in (MEMBERS.get(q, []) or ["true", "false"])[:3]:
+            for n, v in [("DecimalSeparators", ","), ("BlockSeparators", "."), ("Pitch", "20"), ("Verbosity", "Terse"), ("BrailleNavHighlight", "All")]:
+                if n != q:
+                    E.append([(q, vq), (n, v), (q, vq)])
+    for tag, hs, step in (("A", A, 300), ("B", B, 300), ("C", C, 300), ("D", D, 20), ("E", E, 300)):
         run.count("histories_" + tag, len(hs))
         for i in range(0, len(hs), step):
             jobs.append((tag, hs[i:i + step], names, kinds, initial))
